@@ -192,6 +192,10 @@ func (m *metaCallee) HandleCall(from gen.PID, ref gen.Ref, request any) (any, er
 		return nil, nil
 	case mNever, mLate:
 		return nil, nil
+	case mDie:
+		// hands the reply over to its parent and terminates normally in the same callback
+		m.Send(m.Parent(), deferred{From: from, Ref: ref, ID: r.ID, By: "meta-parent"})
+		return nil, gen.TerminateReasonNormal
 	}
 	return Rep{ID: r.ID, By: "meta"}, nil
 }
@@ -202,6 +206,11 @@ type callOp struct {
 	Target int // 0,1: callee actors; 2: meta-process of callee 0
 	Addr   int // 0 pid 1 name 2 alias
 	Req    Req
+	// Burn: before this call the caller draws 2^Burn-1 references from the node, so that this
+	// call's reference is exactly 2^Burn generations after the previous call's (a reference
+	// counter that loses high bits would hand out the same reference again: the withheld reply
+	// to the previous request would then pass for the reply to this one)
+	Burn int
 }
 
 type callResult struct {
@@ -215,7 +224,11 @@ func (o callOp) String() string {
 	if o.Req.After {
 		after = "+after"
 	}
-	return fmt.Sprintf("#%d->t%d/a%d:%s%s", o.Req.ID, o.Target, o.Addr, modeName[o.Req.Mode], after)
+	burn := ""
+	if o.Burn > 0 {
+		burn = fmt.Sprintf("/burn2^%d", o.Burn)
+	}
+	return fmt.Sprintf("#%d->t%d/a%d:%s%s%s", o.Req.ID, o.Target, o.Addr, modeName[o.Req.Mode], after, burn)
 }
 
 var recCorr = kit.NewRecorder("C07", "correlation",
@@ -229,7 +242,7 @@ func TestCorrelation(t *testing.T) {
 		ncallees := rapid.IntRange(1, 2).Draw(t, "callees")
 		nextID := 0
 		scripts := make([][]callOp, ncallers)
-		dies := false
+		dies, metaDies := false, false
 		for c := range scripts {
 			n := rapid.IntRange(2, 6).Draw(t, "calls")
 			slowBudget := 2
@@ -248,18 +261,29 @@ func TestCorrelation(t *testing.T) {
 						slowBudget--
 					}
 				}
-				if mode == mDie && (o.Target != 1 || dies) {
+				if mode == mDie && o.Target == 2 && !metaDies {
+					metaDies = true
+				} else if mode == mDie && (o.Target != 1 || dies) {
 					mode = mNever
-				}
-				if mode == mDie {
+				} else if mode == mDie {
 					dies = true
 				}
 				if o.Target == 2 {
 					o.Addr = 2
 					switch mode {
-					case mNow, mThird, mSelf, mNever, mLate:
+					case mNow, mThird, mSelf, mNever, mLate, mDie:
 					default:
 						mode = mNow
+					}
+				}
+				if n := len(scripts[c]); n > 0 && scripts[c][n-1].Req.Mode == mLate {
+					// the call after a withheld reply is the interesting one: often to the same callee
+					// (its arrival releases the withheld reply), often a power of two references later
+					if rapid.Bool().Draw(t, "same-callee") {
+						o.Target, o.Addr = scripts[c][n-1].Target, scripts[c][n-1].Addr
+					}
+					if scripts[c][n-1].Target == o.Target {
+						o.Burn = rapid.SampledFrom([]int{0, 0, 16, 17, 18, 17, 18, 19}).Draw(t, "burn")
 					}
 				}
 				o.Req = Req{ID: nextID, Mode: mode, After: rapid.Bool().Draw(t, "after")}
@@ -337,6 +361,9 @@ func TestCorrelation(t *testing.T) {
 			done := make(chan struct{})
 			if err := node.Send(callers[c], kit.Do{F: func(a *kit.Actor) {
 				for _, o := range ops {
+					for i := 0; o.Burn > 0 && i < (1<<o.Burn)-1; i++ {
+						a.Node().MakeRef()
+					}
 					v, err := a.CallWithTimeout(target(o), o.Req, 1)
 					results[c] = append(results[c], callResult{op: o, value: v, err: err})
 				}
@@ -376,8 +403,10 @@ func TestCorrelation(t *testing.T) {
 				probes[c] = append(probes[c], callOp{Target: i, Addr: c % 3, Req: Req{ID: nextID, Mode: mNow}})
 				nextID++
 			}
-			probes[c] = append(probes[c], callOp{Target: 2, Addr: 2, Req: Req{ID: nextID, Mode: mNow}})
-			nextID++
+			if !metaDies {
+				probes[c] = append(probes[c], callOp{Target: 2, Addr: 2, Req: Req{ID: nextID, Mode: mNow}})
+				nextID++
+			}
 		}
 		for c := range probes {
 			wg.Add(1)
@@ -430,7 +459,7 @@ func TestCorrelation(t *testing.T) {
 					t.Fatalf("request %s was presented to the callee %d times", o, seen[id])
 				}
 				// 3. completeness (only where no termination interferes)
-				if o.Target == 1 && dies {
+				if (o.Target == 1 && dies) || (o.Target == 2 && metaDies) {
 					continue
 				}
 				accepted := r.err == nil || r.err == gen.ErrTimeout || strings.HasPrefix(r.err.Error(), "callee-error-")
